@@ -15,7 +15,7 @@ COMMON_ASSUME = [
 ]
 
 PROPS = {
-    "C01": dict(monitor="C01", proj="C01", modules=["C01", "C01seq"], cfgs=ALL3, quick=900, thorough=12000,
+    "C01": dict(monitor="C01", proj="C01", modules=["C01", "C01seq", "C01g"], cfgs=ALL3, quick=900, thorough=12000,
                 gens=[(ALL_FIXED, "random", 1.0), (GROUPS, "random", 0.4), (CONC, "stuck", 0.3),
                       (["join", "try_join", "merge", "zip", "race", "chain"], "big", 0.05),
                       (["join", "try_join", "merge", "zip"], "waves", 0.08)],
@@ -32,7 +32,7 @@ PROPS = {
                 gens=[(TRACKED, "random", 1.0), (GROUPS, "random", 0.5), (TRACKED, "stuck", 0.3),
                       (["join", "try_join", "merge", "zip"], "big", 0.05)],
                 assumptions=COMMON_ASSUME),
-    "C20": dict(monitor="C20", proj="C20", cfgs=ALL3, quick=900, thorough=12000,
+    "C20": dict(monitor="C20", proj="C20", modules=["C20", "C20g"], cfgs=ALL3, quick=900, thorough=12000,
                 gens=[(CONC, "random", 1.0), (GROUPS, "random", 0.5), (CONC + GROUPS, "stuck", 0.6)],
                 assumptions=COMMON_ASSUME),
     "C04": dict(monitor="C04", proj="FUN", cfgs=ALL3, quick=1500, thorough=20000,
